@@ -113,7 +113,7 @@ func gen(t *rapid.T) Case {
 	kinds := []string{"create", "create", "create", "create", "create", "read", "read", "read", "readlater", "readlater", "readlater", "stat",
 		"persist", "persist", "persist", "persist", "persist", "clearpersist", "advance", "advance", "advance", "advance", "advance",
 		"delete", "delete", "reopen", "pass", "pass", "pass", "pass", "pass", "pass"}
-	modes := []string{"normal", "normal", "normal", "normal", "aggr-ttl", "aggr-ttl", "policy", "policy", "policy", "real-aggr", "real-calm", "real-policy"}
+	modes := []string{"normal", "normal", "normal", "aggr-ttl", "aggr-ttl", "policy", "policy", "policy", "policy", "real-aggr", "real-calm", "real-policy"}
 	// Setup prefix: a few files, usually one of them awaiting write-back.
 	nInit := rapid.IntRange(2, 4).Draw(t, "ninit")
 	for i := 0; i < nInit; i++ {
@@ -129,7 +129,7 @@ func gen(t *rapid.T) Case {
 			op.Size = rapid.IntRange(0, 64).Draw(t, "size")
 			op.Back = rapid.SampledFrom([]int{0, 0, 0, 1, 2, 30}).Draw(t, "back")
 		case "readlater":
-			op.Dt = rapid.SampledFrom([]int{299, 300, 301, 600, 2699, 2700, 2701, 2702, 3600, 7200}).Draw(t, "dt")
+			op.Dt = rapid.SampledFrom([]int{299, 300, 301, 600, 2698, 2699, 2700, 2700, 2701, 2702, 3600, 7200}).Draw(t, "dt")
 		case "persist":
 			op.Flag = rapid.IntRange(0, 5).Draw(t, "flag") > 0
 		case "advance":
